@@ -253,3 +253,19 @@ def first_code_of_text(t):
 
 def sgr_group_of_text(t):
     return sgr_group(first_code_of_text(t))
+
+
+# ---------------------------------------------------------------------------------------------
+# client-level vocabulary (has abstract twins in pyvc/summaries.py: twin_view_texts, twin_wf_ok, twin_same_value)
+def view_texts(v, i):
+    """ordered setting texts reported for character i ([] outside the text)"""
+    return texts(view(v, i))
+
+
+def wf_ok(v):
+    return wf(v) and owns_lists(v)
+
+
+def same_value(v, w):
+    """equal text and structurally equal tables (setting objects compared by identity)"""
+    return v._s == w._s and same_table(v._fmts, w._fmts)
